@@ -170,10 +170,10 @@ def getitem(I, base, idx):
             if I.lenient and I.has_opaque(list(idx) if isinstance(idx, tuple) else [idx]):
                 return Opaque("np.r_/c_[...]")
             raise
-    if isinstance(base, Opaque) and base.tag.startswith("h5"):
-        from . import models_h5
+    from . import models_h5 as _h5
 
-        return models_h5.getitem(I, base, idx)
+    if isinstance(base, (_h5.H5Node, _h5.H5Attrs)):
+        return _h5.getitem(I, base, idx)
     if isinstance(base, Opaque) and I.lenient:
         key = ("item", repr(idx) if I.is_concrete(idx) else id(idx))
         if key not in base.cache:
@@ -218,6 +218,10 @@ def setitem(I, base, idx, value):
         if raw is not None:
             I.call_repo(raw, [base, idx, value], {}, None)
             return
+    from . import models_h5 as _h5
+
+    if isinstance(base, (_h5.H5Node, _h5.H5Attrs)):
+        return _h5.setitem(I, base, idx, value)
     if isinstance(base, Opaque) and I.lenient:
         I.mutation(base, "__setitem__")
         key = ("item", repr(idx) if I.is_concrete(idx) else id(idx))
@@ -243,10 +247,10 @@ def delitem(I, base, idx):
         i = norm_index(I, idx, len(base.items))
         del base.items[i]
         return
-    if isinstance(base, Opaque) and base.tag.startswith("h5"):
-        from . import models_h5
+    from . import models_h5 as _h5
 
-        return models_h5.delitem(I, base, idx)
+    if isinstance(base, (_h5.H5Node, _h5.H5Attrs)):
+        return _h5.delitem(I, base, idx)
     if isinstance(base, Opaque) and I.lenient:
         I.mutation(base, "__delitem__")
         return
@@ -318,6 +322,12 @@ def class_of(I, v):
         return type(len)
     if isinstance(v, WeakRef):
         return _weakref.ReferenceType
+    from . import models_h5 as _h5
+
+    if isinstance(v, _h5.H5Node):
+        import h5py
+
+        return h5py.File if v.is_file else h5py.Group
     if isinstance(v, Opaque):
         if v.tag.startswith("h5file"):
             import h5py
@@ -510,10 +520,10 @@ def m_list(I, args, kw):
     if isinstance(s, SDict):
         s.ensure_enum(I.path)
         return SList(s.n, s.key_at, "keys")
-    if isinstance(s, Opaque) and s.tag.startswith("h5"):
-        from . import models_h5
+    from . import models_h5 as _h5
 
-        return models_h5.list_keys(I, s)
+    if isinstance(s, _h5.H5Node):
+        return _h5.list_keys(I, s)
     return PList(I.iter_concrete(s))
 
 
